@@ -127,11 +127,16 @@ fn run_history(label: &str, case: &Case, steps: &[Vec<u64>], x: &mut Exec) {
             x.violate("C03:instance:structure", format!("{label} step {si}: the number of functions changed from {} to {}", fb.len(), fa.len()));
             return;
         }
-        for ((lb, b), (la, a)) in fb.iter().zip(&fa) {
-            if lb != la {
-                x.violate("C03:instance:structure", format!("{label} step {si}: {lb} became {la}"));
-                continue;
-            }
+        // functions are matched by what they belong to (the order of the lists is not part of the statement)
+        let fa_by_label: std::collections::BTreeMap<&String, &Option<v1::Function>> = fa.iter().map(|(l, f)| (l, f)).collect();
+        for (lb, b) in fb.iter() {
+            let (la, a) = match fa_by_label.get(lb) {
+                Some(a) => (lb, *a),
+                None => {
+                    x.violate("C03:instance:structure", format!("{label} step {si}: {lb} is gone"));
+                    continue;
+                }
+            };
             if let Some(id) = ids_of(a.as_ref()).intersection(&fixed_so_far).next() {
                 x.violate("C03:instance:still-mentions-fixed", format!("{label} step {si}: {la} still mentions the fixed variable {id}"));
             }
@@ -154,7 +159,11 @@ fn run_history(label: &str, case: &Case, steps: &[Vec<u64>], x: &mut Exec) {
             x.violate("C03:instance:structure", format!("{label} step {si}: the number of decision variables changed"));
             return;
         }
-        for (b, a) in before.decision_variables.iter().zip(&inst.decision_variables) {
+        for b in before.decision_variables.iter() {
+            let Some(a) = inst.decision_variables.iter().find(|a| a.id == b.id) else {
+                x.violate("C03:instance:structure", format!("{label} step {si}: decision variable {} is gone", b.id));
+                continue;
+            };
             let mut b2 = b.clone();
             if let Some((_, v)) = part.iter().find(|(k, _)| *k == b.id) {
                 if a.substituted_value != Some(v.0) {
@@ -167,14 +176,17 @@ fn run_history(label: &str, case: &Case, steps: &[Vec<u64>], x: &mut Exec) {
             }
         }
         // constraint identity and metadata stay
-        for (b, a) in before.constraints.iter().zip(&inst.constraints) {
+        for b in before.constraints.iter() {
+            let Some(a) = inst.constraints.iter().find(|a| a.id == b.id) else { continue };
             let mut b2 = b.clone();
             b2.function = a.function.clone();
             if &b2 != a {
                 x.violate("C03:instance:constraint-metadata", format!("{label} step {si}: constraint {} changed beyond its function", b.id));
             }
         }
-        for (b, a) in before.removed_constraints.iter().zip(&inst.removed_constraints) {
+        for b in before.removed_constraints.iter() {
+            let bid = b.constraint.as_ref().map(|c| c.id);
+            let Some(a) = inst.removed_constraints.iter().find(|a| a.constraint.as_ref().map(|c| c.id) == bid) else { continue };
             let mut b2 = b.clone();
             if let (Some(cb), Some(ca)) = (&mut b2.constraint, &a.constraint) {
                 cb.function = ca.function.clone();
